@@ -8,6 +8,7 @@ CONSTANTS
     DefTTLCfg = 120
     W = 2
     MaxT = 4
+    Ticks = {1}
     Mode = "edges"
     Depth = 0
 VIEW ViewGen
